@@ -368,6 +368,17 @@ def r20_5(chk, fe):
             node = fe.toplevel_assign(nm)
         except AnalysisError:
             node = None
+        if isinstance(node, ast.Call) and isinstance(node.func, ast.Name) and node.func.id in fe.funcs:
+            # a registry computed at import time from literals only (a loop over {name: module}): the dictionary it builds (sa/miniinterp.py)
+            from ..miniinterp import evaluate_call
+            lit = evaluate_call(fe.tree, node)
+            if isinstance(lit, ast.Dict) and all(isinstance(k, ast.Constant) for k in lit.keys):
+                regs[nm] = {}
+                for k, v in zip(lit.keys, lit.values):
+                    src = ast.unparse(v)
+                    head, _, rest = src.partition(".")
+                    full = fe.ctx.alias.get(src) or ((fe.ctx.alias.get(head, head) + "." + rest) if rest else fe.ctx.alias.get(head, head))
+                    regs[nm][k.value] = full
         if isinstance(node, ast.Dict):
             regs[nm] = {k.value: fe.ctx.alias.get(fe.seg(v), fe.seg(v)) for k, v in zip(node.keys, node.values)}
     # what do the public names denote in this module: the compiled generators, or Python wrappers around them?
